@@ -48,6 +48,18 @@ func (g *gen) msgtype() {
 	for v := 0; v < 65536; v++ {
 		g.emit("READVAL %d", v)
 	}
+	// on the wire: the type field holds exactly Value() whatever the struct's 32-bit Length field says (WriteHeader
+	// writes its low 16 bits into bytes 2..3 and nothing of it into the type)
+	g.caseMark("msgtype", 1)
+	g.emit("NEW 0 64 0")
+	for k := 0; k < 200; k++ {
+		m, c := g.r.intn(4096), g.r.intn(4)
+		l := []int{0, 1, 65535, 65536, 65537, 1 << 17, 0xFFFF0000, 0xFFFFFFFF, g.r.intn(1 << 20), g.r.intn(1<<32 - 1)}[g.r.intn(10)]
+		g.emit("SET 0 type:%d:%d", m, c)
+		g.emit("SETLEN 0 %d", l)
+		g.emit("WHDR 0")
+	}
+	g.emit("SETLEN 0 0")
 }
 
 // ---------------------------------------------------------------- wire-level message construction (no library code)
